@@ -3,6 +3,7 @@ package main
 import (
 	"bytes"
 	"context"
+	"encoding/json"
 	"fmt"
 	"os"
 	"os/exec"
@@ -554,7 +555,7 @@ func driveProc(p *Plan, shard int, w *Writer, t *codec.Table) {
 					return string(b)
 				}
 			}
-			return t.Text(n)
+			return spell(t.Text(n), sess)
 		}
 		// the two logical inputs
 		var in1, in2 string
@@ -717,4 +718,29 @@ func driveProc(p *Plan, shard int, w *Writer, t *codec.Table) {
 		w.Emit(shard, Rec{"sess": sess, "op": "End"})
 		os.RemoveAll(dir)
 	}
+}
+
+// spell returns another spelling of the same JSON document (the carrier text of a document is not part of the
+// abstract invocation): compact, indented, indented with CRLF line ends, with a final newline, or surrounded by blanks.
+func spell(text string, sess int) string {
+	if text == "" || len(text) > 4096 {
+		return text
+	}
+	switch (sess / 2) % 5 {
+	case 1, 2:
+		var b bytes.Buffer
+		if json.Indent(&b, []byte(text), "", "  ") != nil {
+			return text
+		}
+		out := b.String() + "\n"
+		if (sess/2)%5 == 2 {
+			out = strings.ReplaceAll(out, "\n", "\r\n")
+		}
+		return out
+	case 3:
+		return text + "\n"
+	case 4:
+		return "\n  " + text + " \t\n\n"
+	}
+	return text
 }
